@@ -69,7 +69,8 @@ type seqChild struct {
 	Op      string         `json:"op"`
 	Key     [16]byte       `json:"key"`
 	Enabled []string       `json:"enabled"`
-	Viol    *eng.Violation `json:"viol,omitempty"`
+	Viols   []*eng.Violation `json:"viols,omitempty"`
+	Fatal   bool           `json:"fatal,omitempty"`
 	Outcome string         `json:"outcome"`
 	Cov     map[string]int `json:"cov"`
 	Verdict string         `json:"verdict"`
@@ -98,25 +99,18 @@ func execChild(cfg config, path []string, op string) seqChild {
 	}
 	x, res := runSeq(cfg, p, false)
 	ch := seqChild{Op: op, Enabled: x.enabled, Cov: x.cov, Verdict: res.Verdict}
-	if x.viol != nil {
-		v := x.viol
-		v.Detail += "\n" + strings.Join(x.log, "\n")
-		n := x.violAt + 1
-		if n > len(p) {
-			n = len(p)
-		}
+	ch.Fatal = x.fatal
+	for _, v := range x.viols {
+		v.Detail += "\n  script (config " + cfg.String() + "): " + strings.Join(p, " ") + "\n  " + strings.Join(x.log, "\n  ")
 		v.Replay = seqReplay{"seq", cfg.String(), p}
 		if v.Features == nil {
 			v.Features = map[string]string{}
 		}
-		ch.Viol = v
-		ch.Outcome = "viol:" + v.Symptom
-		return ch
+		ch.Viols = append(ch.Viols, v)
+		ch.Outcome += "viol:" + v.Symptom + ";"
 	}
 	ch.Key = h16(x.key)
-	if len(x.log) > 0 {
-		ch.Outcome = x.log[len(x.log)-1]
-	}
+	ch.Outcome += x.outcomeString()
 	return ch
 }
 
@@ -152,42 +146,41 @@ func seqWorkerMain() {
 	}
 }
 
-// pool of worker subprocesses
-type seqPool struct {
-	n int
+// pool of persistent worker subprocesses (the binary is large; starting it is expensive)
+type seqJob struct {
+	it   seqItem
+	done func(seqReply)
 }
 
-func (sp *seqPool) run(items []seqItem, handle func(it seqItem, rep seqReply), stop func() bool) {
+type seqPool struct {
+	n    int
+	jobs chan seqJob
+	wg   sync.WaitGroup
+}
+
+func newSeqPool(n int) *seqPool {
+	sp := &seqPool{n: n, jobs: make(chan seqJob, 1024)}
 	bin := os.Getenv("VERIF_BIN")
-	if bin == "" || sp.n <= 1 || len(items) < 4 {
-		for _, it := range items {
-			if stop() {
-				return
-			}
-			cfg, _ := parseConfig(it.Cfg)
-			var rep seqReply
-			for _, op := range it.Ops {
-				rep.Children = append(rep.Children, execChild(cfg, it.Path, op))
-			}
-			handle(it, rep)
-		}
-		return
-	}
-	q := make(chan seqItem, len(items))
-	for _, it := range items {
-		q <- it
-	}
-	close(q)
-	var mu sync.Mutex
-	var wg sync.WaitGroup
-	nw := sp.n
-	if nw > len(items) {
-		nw = len(items)
-	}
-	for w := 0; w < nw; w++ {
-		wg.Add(1)
+	if bin == "" || n <= 1 {
+		sp.n = 1
+		sp.wg.Add(1)
 		go func() {
-			defer wg.Done()
+			defer sp.wg.Done()
+			for j := range sp.jobs {
+				cfg, _ := parseConfig(j.it.Cfg)
+				var rep seqReply
+				for _, op := range j.it.Ops {
+					rep.Children = append(rep.Children, execChild(cfg, j.it.Path, op))
+				}
+				j.done(rep)
+			}
+		}()
+		return sp
+	}
+	for w := 0; w < n; w++ {
+		sp.wg.Add(1)
+		go func() {
+			defer sp.wg.Done()
 			cmd := exec.Command(bin, "-worker")
 			cmd.Stderr = os.Stderr
 			cmd.Env = append(os.Environ(), "GOMAXPROCS=2", "VERIF_C36_WORKER=seq")
@@ -198,11 +191,8 @@ func (sp *seqPool) run(items []seqItem, handle func(it seqItem, rep seqReply), s
 				os.Exit(2)
 			}
 			rd := bufio.NewReaderSize(stdout, 1<<22)
-			for it := range q {
-				if stop() {
-					continue
-				}
-				b, _ := json.Marshal(it)
+			for j := range sp.jobs {
+				b, _ := json.Marshal(j.it)
 				stdin.Write(append(b, '\n'))
 				line, err := rd.ReadBytes('\n')
 				if err != nil {
@@ -214,13 +204,33 @@ func (sp *seqPool) run(items []seqItem, handle func(it seqItem, rep seqReply), s
 					fmt.Fprintln(os.Stderr, "bad seq worker reply:", e)
 					os.Exit(2)
 				}
-				mu.Lock()
-				handle(it, rep)
-				mu.Unlock()
+				j.done(rep)
 			}
 			stdin.Close()
 			cmd.Wait()
 		}()
+	}
+	return sp
+}
+
+func (sp *seqPool) close() { close(sp.jobs); sp.wg.Wait() }
+
+// run executes all items; handle is called serially.
+func (sp *seqPool) run(items []seqItem, handle func(it seqItem, rep seqReply), stop func() bool) {
+	var mu sync.Mutex
+	var wg sync.WaitGroup
+	for _, it := range items {
+		if stop() {
+			break
+		}
+		it := it
+		wg.Add(1)
+		sp.jobs <- seqJob{it, func(rep seqReply) {
+			mu.Lock()
+			handle(it, rep)
+			mu.Unlock()
+			wg.Done()
+		}}
 	}
 	wg.Wait()
 }
@@ -242,82 +252,108 @@ func lessPath(a, b []string) bool {
 	return false
 }
 
-// exploreSeq runs the BFS for every configuration.
+// exploreSeq runs the BFS, level by level over all configurations at once.
 func exploreSeq(r *eng.Run, cfgs []config, depth int) {
-	pool := &seqPool{n: runtime.NumCPU()}
-	totalStates, totalRuns := 0, 0
+	pool := newSeqPool(runtime.NumCPU())
+	defer pool.close()
+	type cstate struct {
+		cfg      config
+		seen     map[[16]byte]struct{}
+		frontier []seqNode
+		states   int
+		runs     int
+		done     int
+	}
 	cov := map[string]int{}
-	depthDone := map[string]int{}
-	perCfg := map[string]any{}
+	var cs []*cstate
 	for _, cfg := range cfgs {
-		seen := map[[16]byte]struct{}{}
+		c := &cstate{cfg: cfg, seen: map[[16]byte]struct{}{}}
 		root := execChild(cfg, nil, "")
-		totalRuns++
-		if root.Viol != nil {
-			r.Report(root.Viol)
-			continue
+		c.runs++
+		for _, v := range root.Viols {
+			r.Report(v)
 		}
-		seen[root.Key] = struct{}{}
-		totalStates++
-		frontier := []seqNode{{nil, root.Enabled}}
-		states, runs, done := 1, 1, 0
-		for d := 1; d <= depth && len(frontier) > 0; d++ {
-			if r.Expired() {
-				r.Incomplete(fmt.Sprintf("budget expired: sequential configuration %s completed to depth %d", cfg, done))
-				break
+		if !root.Fatal {
+			c.seen[root.Key] = struct{}{}
+			c.states = 1
+			c.frontier = []seqNode{{nil, root.Enabled}}
+		}
+		cs = append(cs, c)
+	}
+	byName := map[string]*cstate{}
+	for _, c := range cs {
+		byName[c.cfg.String()] = c
+	}
+	type succ struct {
+		key     [16]byte
+		path    []string
+		enabled []string
+	}
+	for d := 1; d <= depth; d++ {
+		var items []seqItem
+		for _, c := range cs {
+			for _, n := range c.frontier {
+				items = append(items, seqItem{Cfg: c.cfg.String(), Path: n.path, Ops: n.enabled})
 			}
-			items := make([]seqItem, len(frontier))
-			for i, n := range frontier {
-				items[i] = seqItem{Cfg: cfg.String(), Path: n.path, Ops: n.enabled}
-			}
-			type succ struct {
-				key     [16]byte
-				path    []string
-				enabled []string
-			}
-			var succs []succ
-			pool.run(items, func(it seqItem, rep seqReply) {
-				for _, ch := range rep.Children {
-					runs++
-					for k, v := range ch.Cov {
-						cov[k] += v
-					}
-					r.Outcome(ch.Op + "=>" + ch.Outcome)
-					p := append(append(make([]string, 0, len(it.Path)+1), it.Path...), ch.Op)
-					if ch.Viol != nil {
-						r.Report(ch.Viol)
-						continue
-					}
-					succs = append(succs, succ{ch.Key, p, ch.Enabled})
+		}
+		if len(items) == 0 {
+			break
+		}
+		if r.Expired() {
+			r.Incomplete(fmt.Sprintf("budget expired: sequential exploration completed to depth %d of %d", d-1, depth))
+			break
+		}
+		succs := map[string][]succ{}
+		pool.run(items, func(it seqItem, rep seqReply) {
+			c := byName[it.Cfg]
+			for _, ch := range rep.Children {
+				c.runs++
+				for k, v := range ch.Cov {
+					cov[k] += v
 				}
-			}, r.Expired)
-			if r.Expired() {
-				r.Incomplete(fmt.Sprintf("budget expired: sequential configuration %s completed to depth %d", cfg, done))
-				break
-			}
-			sort.Slice(succs, func(a, b int) bool { return lessPath(succs[a].path, succs[b].path) })
-			var next []seqNode
-			for _, s := range succs {
-				if _, ok := seen[s.key]; ok {
+				r.Outcome(ch.Op + "=>" + ch.Outcome)
+				for _, v := range ch.Viols {
+					r.Report(v)
+				}
+				if ch.Fatal {
 					continue
 				}
-				seen[s.key] = struct{}{}
-				states++
+				p := append(append(make([]string, 0, len(it.Path)+1), it.Path...), ch.Op)
+				succs[it.Cfg] = append(succs[it.Cfg], succ{ch.Key, p, ch.Enabled})
+			}
+		}, r.Expired)
+		if r.Expired() {
+			r.Incomplete(fmt.Sprintf("budget expired: sequential exploration completed to depth %d of %d", d-1, depth))
+			break
+		}
+		for _, c := range cs {
+			ss := succs[c.cfg.String()]
+			sort.Slice(ss, func(a, b int) bool { return lessPath(ss[a].path, ss[b].path) })
+			var next []seqNode
+			for _, s := range ss {
+				if _, ok := c.seen[s.key]; ok {
+					continue
+				}
+				c.seen[s.key] = struct{}{}
+				c.states++
 				next = append(next, seqNode{s.path, s.enabled})
 				if len(s.path) >= 2 {
-					r.Distinct(cfg.String() + "\x00" + strings.Join(s.path, "\x00"))
+					r.Distinct(c.cfg.String() + "\x00" + strings.Join(s.path, "\x00"))
 				}
 			}
 			if len(next) > 0 && d == depth {
-				r.Sample(map[string]any{"config": cfg.String(), "ops": next[len(next)/2].path})
+				r.Sample(map[string]any{"config": c.cfg.String(), "ops": next[len(next)/2].path})
 			}
-			frontier = next
-			done = d
+			c.frontier = next
+			c.done = d
 		}
-		depthDone[cfg.String()] = done
-		perCfg[cfg.String()] = map[string]any{"states": states, "scripts_executed": runs, "depth": done}
-		totalStates += states - 1
-		totalRuns += runs - 1
+	}
+	totalStates, totalRuns := 0, 0
+	perCfg := map[string]any{}
+	for _, c := range cs {
+		perCfg[c.cfg.String()] = map[string]any{"states": c.states, "scripts_executed": c.runs, "depth_completed": c.done, "frontier_at_depth_bound": len(c.frontier)}
+		totalStates += c.states
+		totalRuns += c.runs
 	}
 	r.Eval(totalRuns)
 	r.States(totalStates)
@@ -347,11 +383,11 @@ func replaySeq(r *eng.Run, rp seqReplay) {
 	}
 	fmt.Printf("  verdict=%s\n", res.Verdict)
 	r.Eval(1)
-	if x.viol != nil {
-		v := x.viol
+	for _, v := range x.viols {
 		v.Replay = rp
 		r.Report(v)
-	} else {
+	}
+	if len(x.viols) == 0 {
 		fmt.Println("  replay: no violation")
 	}
 }
